@@ -24,7 +24,8 @@ theorem constants_as_modelled :
     Gen.RowWise.sweepDupFactor = 6 / 5 ∧ Gen.RowWise.pointShift = 1000 ∧ Gen.RowWise.farShift = 10 ∧
     Gen.RowWise.farStep = 1 ∧ Gen.RowWise.lineIntersectTol = 1 / 1000000 ∧ Gen.RowWise.genDefaultTol = 1 / 1000000 ∧
     Gen.RowWise.foptDefaultTol = 1 / 100000 ∧ Gen.RowWise.sweepStartDeg = -90 ∧
-    Gen.RowWise.sweepKeepsStrictlyLarger = true ∧ Gen.RowWise.sortKeyIsProjection = true := by
+    Gen.RowWise.sweepKeepsStrictlyLarger = true ∧ Gen.RowWise.sortKeyIsProjection = true ∧
+    (Gen.RowWise.verticalRowRatio = 0 ∨ Gen.RowWise.verticalRowRatio = 1 / 1000000000000) := by
   decide +kernel
 
 /-- The model's `rowDist` (used where the code takes `sqrt` of a squared distance between two points of
@@ -43,16 +44,35 @@ theorem rowDist_is_euclidean (c s : Rat) (h : c * c + s * s = 1) (p : Pt) (t : R
     always called with its end point ahead of its start point (or less than one spacing behind it:
     offset rule), and then `n + 1` passes suffice. -/
 theorem gen_terminates (poly : List Pt) (ySpace xSpace c s tol : Rat) (h : c * c + s * s = 1)
-    (hs : 0 < xSpace) (htol : 0 ≤ tol) :
+    (hband : NoBand c s) (hs : 0 < xSpace) (htol : 0 ≤ tol) :
     genBoreholeConfig poly ySpace xSpace c s tol ≠ .error .other :=
-  genBoreholeConfig_nodiv poly ySpace xSpace c s tol h hs htol
+  genBoreholeConfig_nodiv poly ySpace xSpace c s tol h hband hs htol
+
+/-- `NoBand c s` (`c = 0 ∨ K·|s| < |c|`, `K = Gen.RowWise.verticalRowRatio`) excludes only exact rotations whose
+    rows the code declares vertical although they are not: with the source test `row_space[1] == 0` (`K = 0`) it
+    holds for every rotation; with `K = 1e-12` it holds for 0°, ±90° and every rotation at least 1e-12 rad from ±90°. -/
+theorem noBand_of_ratio_zero (c s : Rat) (hK : Gen.RowWise.verticalRowRatio = 0) : NoBand c s := by
+  unfold NoBand
+  rw [hK, zero_mul]
+  by_cases hc : c = 0
+  · exact Or.inl hc
+  · exact Or.inr (abs_pos.mpr hc)
+
+theorem noBand_of_far (c s : Rat) (h : c * c + s * s = 1) (hc : 1 / 1000000 ≤ |c|) : NoBand c s := by
+  right
+  have hK : Gen.RowWise.verticalRowRatio ≤ 1 / 1000000000000 := by
+    rcases (constants_as_modelled).2.2.2.2.2.2.2.2.2.2.2.2 with h0 | h0 <;> rw [h0] <;> norm_num
+  have hs1 : |s| ≤ 1 := by
+    rw [abs_le]; constructor <;> nlinarith [sq_nonneg c, sq_nonneg (s - 1), sq_nonneg (s + 1)]
+  have hK0 := verticalRowRatio_nonneg
+  nlinarith [abs_nonneg s]
 
 /-- … and so does the rotation sweep over any list of exact rotations. -/
 theorem sweep_terminates (poly : List Pt) (space tol : Rat) (hs : 0 < space) (htol : 0 ≤ tol)
-    (rots : List (Rat × Rat)) (hrots : ∀ r ∈ rots, r.1 * r.1 + r.2 * r.2 = 1) :
+    (rots : List (Rat × Rat)) (hrots : ∀ r ∈ rots, r.1 * r.1 + r.2 * r.2 = 1 ∧ NoBand r.1 r.2) :
     fieldOptimizationFr poly space tol rots ≠ .error .other := by
   unfold fieldOptimizationFr
-  have key : ∀ (rs : List (Rat × Rat)) (i : Nat) (best : Nat × Option (Nat × List Pt)), (∀ r ∈ rs, r.1 * r.1 + r.2 * r.2 = 1) →
+  have key : ∀ (rs : List (Rat × Rat)) (i : Nat) (best : Nat × Option (Nat × List Pt)), (∀ r ∈ rs, r.1 * r.1 + r.2 * r.2 = 1 ∧ NoBand r.1 r.2) →
       sweepLoop (fun r => genBoreholeConfig poly space space r.1 r.2 tol) rs i best ≠ .error .other := by
     intro rs
     induction rs with
@@ -60,7 +80,7 @@ theorem sweep_terminates (poly : List Pt) (space tol : Rat) (hs : 0 < space) (ht
     | cons r rs ih =>
       intro i best hr
       unfold sweepLoop
-      have h1 := gen_terminates poly space space r.1 r.2 tol (hr r (by simp)) hs htol
+      have h1 := gen_terminates poly space space r.1 r.2 tol (hr r (by simp)).1 (hr r (by simp)).2 hs htol
       cases hg : genBoreholeConfig poly space space r.1 r.2 tol with
       | error e => rw [hg] at h1; simpa using h1
       | ok hole => exact ih _ _ (fun x hx => hr x (List.mem_cons_of_mem _ hx))
@@ -79,6 +99,14 @@ example : (genBoreholeConfig [(0, 0), (60, 0), (60, 30), (0, 30)] 7 7 0 (-1) (1 
   decide +kernel
 example : (genBoreholeConfig [(0, 0), (50, 0), (0, 40)] 7 7 0 (-1) (1 / 100000)).toOption.map List.length = some 27 := by
   decide +kernel
+/-- Witness of finding `spacing-rot-minus90-on-vertical-edge` in the model: at the exact rotation -90° the
+    31 × 108 rectangle with 16.541 m target spacing gets the 2 × 7 lattice, rows on its vertical edges (what the
+    code returns once a negligible cosine makes a vertical row; with `row_space[1] == 0` the float code has
+    cos = 6e-17 there and returns boreholes 2 m apart). -/
+example : (genBoreholeConfig [(77 / 2, 0), (77 / 2, 108), (15 / 2, 108), (15 / 2, 0)] (16541 / 1000) (16541 / 1000) 0 (-1)
+    (1 / 100000)).toOption.map List.length = some 14 ∧ NoBand 0 (-1) :=
+  ⟨by decide +kernel, Or.inl rfl⟩
+
 /-- The F14 mechanism in the model: with the end points of a row in the reversed order (what the former
     polar sort key produced for an intersection at x = -1e-15) `distribute` never returns. -/
 example : distribute 0 (-1) 7 (0, 0) (0, 30) [] = .error .other := by decide +kernel
@@ -213,11 +241,11 @@ example : genBoreholeConfig (rectPoly 0 0 60 30) 7 7 1 0 (1 / 100000) = .ok (lat
     intersection tolerance — for a convex outline, inside or on the outline.  `RowsSimple`: an even number
     of intersections of a row means at most two (true for a convex outline, decidable: `rowsSimple`). -/
 theorem inside_convex (poly : List Pt) (ySpace xSpace c s tol : Rat) (h : c * c + s * s = 1)
-    (hs : 0 < xSpace) (htol : 0 ≤ tol) (hsimple : rowsSimple poly ySpace c s tol = true) (a b β : Rat)
+    (hband : NoBand c s) (hs : 0 < xSpace) (htol : 0 ≤ tol) (hsimple : rowsSimple poly ySpace c s tol = true) (a b β : Rat)
     (hpoly : ∀ v ∈ poly, a * v.1 + b * v.2 ≤ β) (field : List Pt)
     (hr : genBoreholeConfig poly ySpace xSpace c s tol = .ok field) :
     ∀ p ∈ field, a * p.1 + b * p.2 ≤ β + tol * (|a| + |b|) :=
-  genBoreholeConfig_inside poly ySpace xSpace c s tol h hs htol (rowsSimple_sound poly ySpace c s tol hsimple) a b β hpoly field hr
+  genBoreholeConfig_inside poly ySpace xSpace c s tol h hband hs htol (rowsSimple_sound poly ySpace c s tol hsimple) a b β hpoly field hr
 
 /-- Non-vacuity: a convex pentagon at the Pythagorean rotation (4/5, -3/5) has simple rows and a
     non-empty field. -/
